@@ -59,16 +59,17 @@ def rich_line(draw, v, s, ec):
         last = max(fields)
         row = [r for r in rows if r[1] == last]
         ncomp = len(T.ref_children(v, row[0][2]) or ()) if row else 0
-        line = line + C * max(ncomp, 1) + draw(S.textual_leaf(v, ec, 1))
+        # the out-of-table leaf starts with a letter: on a numeric field a digit string would be normalised ('00' -> '0')
+        line = line + C * max(ncomp, 1) + 'q' + draw(S.textual_leaf(v, ec, 1))
         flags.append('extra-component')
     elif k < 4 and rows[-1][2][2] != 'varies':
         # fields beyond the defined count
         name, fields = R.split_segment(line, ec)
         have = max(fields)
         pad = rows[-1][1] - have + draw(st.integers(1, 3))
-        line = line + F * pad + draw(S.textual_leaf(v, ec, 1))
+        line = line + F * pad + 'q' + draw(S.textual_leaf(v, ec, 1))
         if draw(st.booleans()):
-            line = line + F + draw(S.textual_leaf(v, ec, 1)) + C + draw(S.textual_leaf(v, ec, 1))
+            line = line + F + 'q' + draw(S.textual_leaf(v, ec, 1)) + C + 'q' + draw(S.textual_leaf(v, ec, 1))
         flags.append('extra-field')
     return line.rstrip(' '), flags
 
